@@ -787,6 +787,33 @@ Theorem Link_history_GI :
 Proof. exact hist_GI. Qed.
 Print Assumptions Link_history_GI.
 
+(* a call / an Open from a linked state of an accepted history: the byte disk
+   follows in lock step (op_link = exists bd', erun ... /\ wlink ...) *)
+Theorem Link_history_call :
+  forall c nb h s o bd,
+    cfg_ok c -> sop_ok o -> nb + 2 < two64 -> GI c nb h -> hs_mode h = Up s -> HL c h bd ->
+    exists r s', step_model c s o = (r, s') /\
+                 op_link c bd (ss_env s) (ss_wal s') (ss_env s') /\
+                 NoDup (map fst (dk_files (e_disk (ss_env s)))).
+Proof. exact call_link. Qed.
+Print Assumptions Link_history_call.
+
+Theorem Link_history_open :
+  forall c nb h d bd,
+    cfg_ok c -> nb + 2 < two64 -> GI c nb h -> hs_mode h = Down d -> HL c h bd ->
+    exists w e, open_wal c (env_of d) = (OOk w, e) /\ op_link c bd (env_of d) w e.
+Proof. exact open_link. Qed.
+Print Assumptions Link_history_open.
+
+(* which file can have a write in flight: a listed segment whose file has a
+   pending batch is the unsealed tail, the file Open hands to RecoverTail *)
+Theorem Link_pending_only_tail :
+  forall c nb d ps n f s,
+    DIs c nb d -> dk_meta d = Some ps -> lookup n (dk_files d) = Some f -> df_pend f <> None ->
+    In s (ps_segs ps) -> name_of s = n -> si_sealed s = false /\ tail_info (ps_segs ps) = Some s.
+Proof. exact pending_only_tail. Qed.
+Print Assumptions Link_pending_only_tail.
+
 (* (2) every byte-level crash outcome is covered: after j actions of a call (of
    Open) the byte disk reached is related, and WHATEVER the byte-level adversary
    leaves, some crash choice cc continues the history, linked after RecoverTail *)
